@@ -6,6 +6,7 @@ CONSTANTS
   Schemes = {"M"}
   Leaves = {"int", "float", "string", "bool"}
   Emit = TRUE
+  KeyMode = "plain"
 INVARIANTS
-  RespellLemma NormIdempotent NormKeepsMeaning ExpandLemma LoggedLemma GoodFits BadMisfits Loadable
+  RespellLemma NormIdempotent NormKeepsMeaning ExpandLemma RekeyLemma FormatsLemma LoggedLemma GoodFits BadMisfits Loadable
 CHECK_DEADLOCK FALSE
